@@ -456,3 +456,35 @@ def _in_loop(node, func_node):
             return True
         p = getattr(p, '_parent', None)
     return False
+
+
+def run_unit_last(repo, res, modules=None):
+    """Units are attached last: once a local has been made a Quantity (`x <<= unit`, `x = self._apply_units(...)`), the function
+    stores no bare numbers into it (`x[mask] = fill` raises UnitConversionError for a dimensional unit and a non-zero finite number,
+    while the same call on a plain array succeeds)."""
+    n = 0
+    for f in repo.functions.values():
+        if modules is not None and f.module.name not in modules:
+            continue
+        q = {}
+        for st in ast.walk(f.node):
+            if isinstance(st, ast.AugAssign) and isinstance(st.op, ast.LShift) and isinstance(st.target, ast.Name):
+                q[st.target.id] = min(q.get(st.target.id, 10**9), st.lineno)
+            if isinstance(st, ast.Assign) and len(st.targets) == 1 and isinstance(st.targets[0], ast.Name) \
+                    and isinstance(st.value, ast.Call) and unparse(st.value.func, 0).endswith('_apply_units'):
+                q[st.targets[0].id] = min(q.get(st.targets[0].id, 10**9), st.lineno)
+        if not q:
+            continue
+        n += 1
+        bad = [st for st in ast.walk(f.node)
+               if isinstance(st, ast.Assign) and isinstance(st.targets[0], ast.Subscript) and isinstance(st.targets[0].value, ast.Name)
+               and st.targets[0].value.id in q and st.lineno > q[st.targets[0].value.id]
+               and not any(isinstance(x, ast.Name) and x.id in q for x in ast.walk(st.value))]
+        res.oblige('UNIT-LAST', f'{f.qualname}: no bare number is stored into a local after units were attached to it', not bad,
+                   nontrivial=True, sample={'function': f.fullname, 'quantity_locals': sorted(q)})
+        for st in bad:
+            res.add(Finding('UNIT-LAST', f.fullname, norm_stmt_text(st), f'{f.module.relpath}:{st.lineno}',
+                            f'{f.qualname}: `{norm_stmt_text(st)}` stores a bare value into `{st.targets[0].value.id}` after units were '
+                            f'attached to it (line {q[st.targets[0].value.id]}): for Quantity/NDData input this raises or mixes units, '
+                            f'while the same call on the plain array works', {}))
+    return n
